@@ -15,7 +15,7 @@ func benchWorld(a *artefacts, seed uint64) int {
 	for i := 0; i < 12; i++ {
 		prog := genProgram(simrt.Mix(seed, uint64(i)), idlgen.Options{MaxFiles: 4, MaxDefs: 7})
 		pair := &c07Pair{Prog: prog.Name, Files: prog.Files, Cwd: prog.Cwd, Main: prog.Main, Cfg: cfgs[i%len(cfgs)]}
-		sp := pair.spec(c07Base)
+		sp := pair.spec(c07BaseFor(nil))
 		b, _ := json.Marshal(sp)
 		t0 := time.Now()
 		wr := runWorld(a, sp)
